@@ -96,7 +96,8 @@ def rejection_alphabet():
         pass
     return [
         {1: "a"}, {True: "a"}, {None: "a"}, {1.5: "a"}, {(1, 2): "a"}, {b"k": "a"}, {1: "a", "1": "b"},
-        [{2: [1]}], ({0: None},), {"a": {3: 4}}, {dt.date(2024, 1, 1): 1}, {D("1"): 1},
+        [{2: [1]}], ({0: None},), [{1: "a"}], [{"a": 1}, {2: "b"}], [{None: 1}], [{1.5: "x"}], [{True: 1}], [[{1: "a"}]],
+        [{"k": [1, 2]}, {3: []}], [1, "s", {4: 5}], [{"a": {6: 7}}], {"a": {3: 4}}, {dt.date(2024, 1, 1): 1}, {D("1"): 1},
         {1, 2}, frozenset([1]), Obj(), [Obj()], {"a": Obj()}, 1 + 2j, [1j], range(3), (x for x in [1]),
         10 ** 5000, [10 ** 5000], {"a": -(10 ** 5000)},
     ]
